@@ -37,6 +37,11 @@ COMPARATORS = ['>', '<', '>=', '<=', '==', '!=']
 OPS = {'>': np.greater, '<': np.less, '>=': np.greater_equal, '<=': np.less_equal, '==': np.equal, '!=': np.not_equal}
 
 
+# operation mixes: default / selection-heavy (subsets, chains and repeated queries) / metric-heavy
+PROFILES = [[6, 2, 2, 4, 2, 2, 3], [2, 1, 1, 6, 5, 6, 3], [9, 4, 3, 2, 1, 1, 2]]
+CHAIN_METRICS = ('chain_ind', 'chain_position', 'chain_start', 'chain_end', 'chain_len_samples', 'chain_len_cycles')
+
+
 class CallbackFault(Exception):
     pass
 
@@ -179,6 +184,7 @@ def scenario(w):
         ('phase', phase.copy()), ('wave', (1 + 0.4 * np.sin(2 * np.pi * t / max(N, 1) * 3)) * np.sin(phase)),
         ('idx', t.astype(float)), ('cv', None)])
     counts = {'metric': 0, 'select': 0}
+    used_conds = []
 
     def both(thunk_on, thunk_off):
         r = []
@@ -256,6 +262,37 @@ def scenario(w):
                         w.violation('chains', 'vector', 'after %s chains are %s, maximal runs of consecutive selected cycles are %s'
                                     % (after, np.asarray(cobj.chain_vect).reshape(-1).tolist(), M.chain_vect.tolist()))
                         return False
+        return requery(after)
+
+    def requery(after):
+        """Cross-invariant after every step: every query asked earlier in this history (plus two canonical ones per
+        metric) is asked again and must have the answer the model gives for the *current* state."""
+        for name, mv in M.metrics.items():
+            if name in M.aug or name in M.unspecified or any(Model.parse(c)[0] == name for c in used_conds):
+                continue
+            vals = np.asarray(mv, dtype=float)
+            vals = vals[np.isfinite(vals)]
+            if len(vals):
+                used_conds.append('%s==%r' % (name, float(vals[0])))
+                used_conds.append('%s>%r' % (name, float(np.median(vals))))
+        for c in used_conds[-24:]:
+            name = Model.parse(c)[0]
+            if name not in M.metrics or name in M.aug or name in M.unspecified:
+                continue
+            want = M.matching([c])
+            for label, cobj in (('cache-on', con), ('cache-off', coff)):
+                try:
+                    got = np.asarray(cobj.get_matching_cycles(c)).astype(bool)
+                except Exception as e:
+                    C.reraise_if_harness(e)
+                    w.violation('matching', 'requery-raised', 'after %s get_matching_cycles(%r) raised %r in the %s container' % (after, c, e, label))
+                    return False
+                w.probe('requeries')
+                if not np.array_equal(got, want):
+                    w.violation('matching', 'requery:' + label,
+                                'after %s get_matching_cycles(%r) answers %s in the %s container, but the stored metric is %s '
+                                '(history: %s)' % (after, c, got.astype(int).tolist(), label, np.asarray(M.metrics[name]).tolist(), hist))
+                    return False
         return True
 
     def cond_literal(name):
@@ -290,13 +327,27 @@ def scenario(w):
                 kinds.append('missing')
                 w.fault('missing_metric')
                 continue
-            name = names[ch.pick('cond.metric', len(names))]
+            reusable = [c for c in used_conds if Model.parse(c)[0] in names]
+            if reusable and ch.weighted('cond.reuse', [1, 1]) == 1:
+                # the same query again, after the container's state has moved on
+                c = reusable[ch.pick('cond.reuse.which', len(reusable))]
+                out.append(c)
+                kinds.append(re.match(r'^[A-Za-z_0-9]+(==|!=|<=|>=|<|>)', c).group(1) + 'reused')
+                w.probe('condition_reused')
+                continue
+            derived = [k for k in names if k in CHAIN_METRICS]
+            if profile == 1 and derived and ch.weighted('cond.derived', [1, 2]) == 1:
+                name = derived[ch.pick('cond.metric.derived', len(derived))]
+            else:
+                name = names[ch.pick('cond.metric', len(names))]
             comp = COMPARATORS[ch.pick('cond.comp', 6)]
             lit, lk = cond_literal(name)
             out.append('%s%s%s' % (name, comp, lit))
             kinds.append(comp + lk)
+            used_conds.append(out[-1])
         return out, kinds
 
+    profile = ch.pick('profile', len(PROFILES))      # swarm: the workload mix varies per run
     if not compare('construction'):
         return
 
@@ -304,7 +355,7 @@ def scenario(w):
     M.aug_trusted = {}
     for step in range(nops):
         kind = ch.wchoice('op', ['compute', 'add', 'timings', 'pick', 'chain_timings', 'matching', 'export'],
-                          [6, 2, 2, 4, 2, 2, 3])
+                          PROFILES[profile])
         if kind == 'compute':
             name = 'm%d' % ch.pick('metric.name', 5)
             sname = list(series)[ch.pick('metric.series', len(series))]
